@@ -348,6 +348,29 @@ def lift_ite(t):
     return tm.ite(i.a[0], a, b)
 
 
+def lift_outer_ite(t):
+    """like lift_ite, for the one conditional that is not nested inside another conditional (helpers evaluated in place
+    bring their own conditionals with them)"""
+    if t.op == "ite":
+        return t
+    ites = {}
+    for x in tm.walk(t):
+        if x.op == "ite":
+            ites[x.id] = x
+    inner = set()
+    for x in ites.values():
+        for y in tm.walk(x):
+            if y.op == "ite" and y is not x:
+                inner.add(y.id)
+    outer = [x for k, x in ites.items() if k not in inner]
+    if len(outer) != 1:
+        return t
+    i = outer[0]
+    a = tm.rebuild(t, lambda x: i.a[1] if x is i else None)
+    b = tm.rebuild(t, lambda x: i.a[2] if x is i else None)
+    return tm.ite(i.a[0], a, b)
+
+
 def kwargs_chain(t):
     """Walk an upd-chain over a **kwargs dict: yields (how, key_term, val_term, cond_stack)."""
     out = []
@@ -708,3 +731,188 @@ def _up(node, parents):
     while out[-1] in parents:
         out.append(parents[out[-1]])
     return out
+
+
+# ------------------------------------------------------------------ NONETRUTH
+def rule_nonetruth(ctx, rule, files):
+    """A parameter that may be None *and* may be a number (or an array) is tested with `is None` / `is not None`, never by
+    its truth value: `if t_min:` treats the legitimate value 0.0 like "not given" (and an array has no truth value at
+    all), so the behaviour at the time origin differs from the behaviour an instant later."""
+    n = 0
+    for f in ctx.program.all_funcs(include_new=True):
+        if files is not None and f.module.path.split("mir_eval/")[-1] not in files:
+            continue
+        cand = {}
+        for p in list(f.params) + list(getattr(f, "kwonly", [])):
+            doc = [x for x in f.docinfo.get("params", []) if x[0] == p]
+            ty = (doc[0][1] if doc else "") or ""
+            d = f.defaults.get(p)
+            none_default = isinstance(d, ast.Constant) and d.value is None
+            may_none = none_default or "None" in ty
+            numeric = any(k in ty for k in ("float", "int", "number", "ndarray", "scalar")) or (isinstance(d, ast.Constant) and isinstance(d.value, (int, float)) and not isinstance(d.value, bool) and "None" in ty)
+            if may_none and numeric:
+                cand[p] = ty
+        if not cand:
+            continue
+        rebound = {x.id for x in ast.walk(f.node) if isinstance(x, ast.Name) and isinstance(x.ctx, ast.Store)}
+        bad = {}
+
+        def truth(e):
+            if isinstance(e, ast.BoolOp):
+                for v in e.values:
+                    truth(v)
+            elif isinstance(e, ast.UnaryOp) and isinstance(e.op, ast.Not):
+                truth(e.operand)
+            elif isinstance(e, ast.Name) and e.id in cand and e.id not in rebound:
+                bad.setdefault(e.id, e)
+
+        for x in ast.walk(f.node):
+            if isinstance(x, (ast.If, ast.IfExp, ast.While)):
+                truth(x.test)
+            elif isinstance(x, ast.Assert):
+                truth(x.test)
+            elif isinstance(x, ast.comprehension):
+                for c in x.ifs:
+                    truth(c)
+            elif isinstance(x, ast.BoolOp):
+                # `t_min or 0.0` as a value: the same confusion
+                for v in x.values[:-1]:
+                    truth(v)
+        for p in sorted(cand):
+            n += 1
+            e = bad.get(p)
+            yield ob(rule, f, "%s:%s" % (f.qual, p), e is None, ("optional parameter %s (%s) is tested with `is None` only" % (p, cand[p])) if e is None else ("optional parameter %s (%s) is tested by its truth value at line %d: the valid value 0 (or an array) is treated as \"not given\"" % (p, cand[p], e.lineno)), node=e)
+    need(n >= 2, rule, "only %d optional numeric parameters found" % n)
+
+
+# ------------------------------------------------------------------ FORMATSAFE
+def rule_formatsafe(ctx, rule, files):
+    """`<template>.format(...)` is applied to a template the *program* wrote (a literal, a module constant, a local that
+    is only ever bound to one of those) - never to text that may already contain the user's input: a label, key or file
+    line containing `{` or `}` then raises KeyError / IndexError / ValueError from str.format instead of the documented
+    exception (and a message formatted twice has the same effect)."""
+    n = 0
+    for mname in sorted(ctx.program.modules):
+        mod = ctx.program.modules[mname]
+        if files is not None and mod.path.split("mir_eval/")[-1] not in files:
+            continue
+        parents = {}
+        for node in ast.walk(mod.tree):
+            for ch in ast.iter_child_nodes(node):
+                parents[ch] = node
+
+        def literal(e, fn, depth=0):
+            if depth > 4:
+                return False
+            if isinstance(e, ast.Constant) and isinstance(e.value, str):
+                return True
+            if isinstance(e, ast.JoinedStr):
+                return False  # an f-string has already interpolated something
+            if isinstance(e, ast.BinOp) and isinstance(e.op, ast.Add):
+                return literal(e.left, fn, depth + 1) and literal(e.right, fn, depth + 1)
+            if isinstance(e, ast.Name):
+                if fn is not None:
+                    params = {a.arg for a in fn.args.args + fn.args.kwonlyargs}
+                    if e.id in params:
+                        return False
+                    assigns = [x for x in ast.walk(fn) if isinstance(x, ast.Assign) and any(isinstance(t, ast.Name) and t.id == e.id for t in x.targets)]
+                    others = [x for x in ast.walk(fn) if isinstance(x, ast.Name) and x.id == e.id and isinstance(x.ctx, ast.Store)]
+                    if assigns:
+                        return len(others) == len(assigns) and all(literal(a.value, fn, depth + 1) for a in assigns)
+                    if others:
+                        return False
+                node = mod.const_nodes.get(e.id)
+                return node is not None and literal(node, None, depth + 1)
+            return False
+
+        k = 0
+        for node in ast.walk(mod.tree):
+            if isinstance(node, ast.Call) and isinstance(node.func, ast.Attribute) and node.func.attr == "format":
+                fn = None
+                where = [mname]
+                for q in _up(node, parents):
+                    if isinstance(q, ast.FunctionDef):
+                        if fn is None:
+                            fn = q
+                    if isinstance(q, (ast.FunctionDef, ast.ClassDef)):
+                        where.insert(1, q.name)
+                k += 1
+                n += 1
+                ok = literal(node.func.value, fn)
+                yield ob(rule, "mir_eval/%s.py:%d" % (mname, node.lineno), "%s:format@%d" % (".".join(where), k), ok, "format template is a literal / module constant" if ok else "str.format is applied to %s, which is not a template written in the source: text containing { or } raises from str.format" % ast.unparse(node.func.value)[:60], node=node)
+    need(n >= 3, rule, "only %d format calls found" % n)
+
+
+def alpha(t):
+    """Rename loop / comprehension / merge identifiers in order of first appearance: two evaluations of the same code
+    (a helper evaluated in place twice) differ only in these identifiers."""
+    import re as _re
+
+    names = {}
+    pat = _re.compile(r"^(L|C|T|U)\d+(_\d+)?(c|x)?$")
+
+    def ren(v):
+        if isinstance(v, str) and pat.match(v):
+            base = _re.match(r"^((L|C|T|U)\d+(_\d+)?)", v).group(1)
+            if base not in names:
+                names[base] = "#%d" % (len(names) + 1)
+            return names[base] + v[len(base):]
+        return v
+
+    memo = {}
+
+    def rec(x):
+        r = memo.get(x.id)
+        if r is not None:
+            return r
+        args = []
+        for a in x.a:
+            if hasattr(a, "op"):
+                args.append(rec(a))
+            elif isinstance(a, tuple):
+                args.append(tuple(rec(z) if hasattr(z, "op") else (tuple(rec(w) if hasattr(w, "op") else w for w in z) if isinstance(z, tuple) else ren(z)) for z in a))
+            else:
+                args.append(ren(a))
+        r = tm.mk(x.op, *args)
+        memo[x.id] = r
+        return r
+
+    return rec(t)
+
+
+def shape_key(t, _memo=None):
+    """A canonical text of a term with loop / comprehension identifiers forgotten and the operands of commutative
+    operators ordered by their own text: equal for two evaluations of the same code (a helper evaluated in place twice)."""
+    import re as _re
+
+    memo = {} if _memo is None else _memo
+    pat = _re.compile(r"^(L|C|T|U)\d+(_\d+)?(c|x)?$")
+
+    def leaf(v):
+        if isinstance(v, str) and pat.match(v):
+            return "*"
+        return repr(v)
+
+    def rec(x):
+        r = memo.get(x.id)
+        if r is not None:
+            return r
+        parts = []
+        for a in x.a:
+            if hasattr(a, "op"):
+                parts.append(rec(a))
+            elif isinstance(a, tuple):
+                parts.append("(" + ",".join(rec(z) if hasattr(z, "op") else ("(" + ",".join(rec(w) if hasattr(w, "op") else leaf(w) for w in z) + ")" if isinstance(z, tuple) else leaf(z)) for z in a) + ")")
+            else:
+                parts.append(leaf(a))
+        if x.op == "bin" and x.a[0] in tm.COMMUTATIVE_BIN:
+            parts = [parts[0]] + sorted(parts[1:])
+        elif x.op == "cmp" and x.a[0] in ("==", "!=", "is", "isnot"):
+            parts = [parts[0]] + sorted(parts[1:])
+        elif x.op == "bool":
+            parts = [parts[0]] + sorted(parts[1:])
+        r = x.op + "[" + "|".join(parts) + "]"
+        memo[x.id] = r
+        return r
+
+    return rec(t)
